@@ -314,6 +314,8 @@ def run(ctx):
     ctx.rule('R09.13', 'agreement between the two sides is decided by a type-strict comparison (C05 R05.6): otherwise choosing the other side does not reproduce it', floor=4)
     ctx.rule('R09.11', 'the local and remote diff arguments of every decision-builder call are the two sides\' own diffs (mirror images of each other); one expression for both only where the insert aligner established equality', floor=40)
     ctx.rule('R09.12', 'merge_notebooks returns the notebook apply_decisions built from the returned decisions, unmodified (the pair stays consistent)', floor=1)
+    ctx.rule('R09.15', 'a key-only (stable) re-sort of diff entries is only applied to input whose order already puts an addrange before the patch/removerange of the same index: '
+             'not to the concatenated diffs of several decisions', floor=0)
     ctx.rule('R09.8', 'entries re-sorted by key alone keep their input order at equal keys: the sorted list is appended to entry by entry (stable sort), or the sort key breaks ties explicitly', floor=2)
     ctx.rule('R09.9', 'the public merge producers never conclude "this side is unchanged" from Python equality of the documents (True == 1 == 1.0)', floor=3)
     ctx.rule('R09.10', 'the mergers only add decisions: the decision list is replaced/filtered nowhere in merging/generic.py (strategies replace only conflicted ones, R05.2)', floor=5)
@@ -338,6 +340,24 @@ def run(ctx):
             ctx.inst('R09.8', fid, repo.norm(call), True, 'ties are broken explicitly by the sort key', call)
             continue
         ok, why = single_pass_construction(fn, lst)
+        if ok and kind == 'key-only':
+            # the stable sort only preserves what the INPUT order already guarantees: look at what the callers pass
+            for cfid, cfn in sorted(repo.functions.items()):
+                if not cfid.startswith('nbdime.') or cfid == fid:
+                    continue
+                for c2 in calls_in(cfn, nested=False):
+                    if not (('func', fid) in ctx.cg.resolve(c2.func, cfn) and c2.args):
+                        continue
+                    a0 = c2.args[0]
+                    concat = isinstance(a0, ast.BinOp) and isinstance(a0.op, ast.Add)
+                    if not concat and isinstance(a0, ast.Name):
+                        from ..util import local_defs as _ld
+                        concat = any(k in ('mutate', 'aug') and 'extend' in ast.unparse(st) for v, k, st in _ld(cfn).get(a0.id, []))
+                    if concat:
+                        ctx.inst('R09.15', cfid, '%s  [sorted by key only in %s]' % (repo.norm(c2), fid.split(':')[1]), False,
+                                 'the argument concatenates the diffs of SEVERAL decisions (deeper decisions first), so an addrange can arrive after a patch of the same index; '
+                                 'the key-only stable sort keeps that order and patch_list/patch_string then put the inserted item AFTER the patched one: one side inserts a line '
+                                 'above a line that is also patched -> "Xnew\\nabcdefgh\\n" instead of "new\\nXabcdefgh\\n", reported as a clean merge', c2)
         ctx.inst('R09.8', fid, repo.norm(call), ok and kind == 'key-only',
                  'stable sort of a list that is %s: an addrange stays in front of the patch/removerange on the same key' % why if ok and kind == 'key-only' else
                  ('%s; patch_list needs an addrange to come before a patch/removerange at the same key, which only input order guarantees here' % why
@@ -441,3 +461,7 @@ def run(ctx):
                  repo.norm((muts or rebinds)[0])[:80]), (muts or rebinds)[0] if (muts or rebinds) else mn)
     from .c05 import sides_compared_strictly
     sides_compared_strictly(ctx, 'R09.13')
+
+
+from .extra import with_extra  # noqa: E402
+run = with_extra('C09', run)
